@@ -10,7 +10,7 @@ from harness import codec, tlc
 from harness.checks_codec import adjudicate, run_mc
 from harness.framework import MachineryError
 
-BASES = ["uint8", "int8", "uint16", "int16", "uint32", "int32", "uint64"]
+BASES = ["uint8", "int8", "uint16", "int16", "uint32", "int32", "uint64", "int24", "uint24"]      # (wider signed bases: Trace_Enum carries values as TLC integers)
 NAMES = ["A", "B", "C", "DD", "E_5", "Foo", "G"]
 
 
@@ -86,7 +86,8 @@ def enum_record(rid, rnd):
             # null-terminated array - all of them are the same value: equal, with equal hashes (also for duplicate member values)
             raw = v.to_bytes(size, order, signed=signed)
             a, a2 = parse(E, v), parse(E, v)
-            more = [E[2](raw + raw)[1]] + ([E[None](raw + bytes(size))[0]] if v != 0 else [])
+            # ... and through the other call forms: the class called with the bytes (and a bytearray of them), reads()
+            more = [E[2](raw + raw)[1]] + ([E[None](raw + bytes(size))[0]] if v != 0 else []) + [E(raw), E(bytearray(raw)), E.reads(raw)]
         except Exception as e:  # noqa: BLE001 - a value that cannot be parsed at all: recorded as an unequal, unpreserved parse
             twice.append({"raw": v, "value": v + 1, "eq": False, "heq": False, "exc": f"{type(e).__name__}: {e}"[:120]})
             continue
